@@ -16,7 +16,7 @@
     This file contains only the property theorems (closed by [exact]) + Print Assumptions + non-vacuity Examples. *)
 From Coq Require Import List Arith Bool String.
 Import ListNotations.
-From XV Require Import C17.Model17 C17.Proofs17a C17.Classify17.
+From XV Require Import C17.Model17 C17.Proofs17a C17.Proofs17b C17.Proofs17c C17.Proofs17d C17.Classify17.
 
 (** T17_lockset (generic, full): if every thread accesses [x] only while holding [m], then in every reachable state
     of every interleaving there is no race on [x], no two threads are inside a critical section of [m], and while a
@@ -37,3 +37,106 @@ Print Assumptions T17_inventory.
 (** the symbols classified as known defects are really unprotected in this tree (the findings are not stale) *)
 Theorem T17_inventory_racy_confirmed : racy_confirmed = true.
 Proof. vm_compute. reflexivity. Qed.
+Print Assumptions T17_inventory_racy_confirmed.
+
+(** T17_initonly: a location written only by the main thread before it releases the workers (the Initialize
+    barrier), and by nobody afterwards, is race free for any number of workers and all interleavings. *)
+Theorem T17_initonly : forall x m0 p0 ws, initphase x p0 -> Forall (worker x) ws ->
+  forall s, reach (init_state m0 (p0 :: ws)) s -> ~ race_at x s.
+Proof. exact initonly_race_free. Qed.
+Print Assumptions T17_initonly.
+
+(** T17_lazy_once: N threads (any N) all run lock-then-check-then-initialise on a fresh facility.  In every reachable
+    state of every interleaving the body "data := data + v" has run at most once (data is 0 or v, never 2v), every
+    finished caller returns the fully built value v, and no two threads are inside the critical section. *)
+Theorem T17_lazy_once : forall m flag data v, flag <> data -> forall N m0, m0 flag = 0 -> m0 data = 0 ->
+  forall s, reach (init_state m0 (repeat (lazy_get m flag data v) N)) s ->
+    (mem s data = 0 \/ mem s data = v) /\
+    (forall i t r, nth_error (thr s) i = Some t -> code t = Done r -> r = v) /\
+    ~ both_inside m s.
+Proof. exact lazy_once. Qed.
+Print Assumptions T17_lazy_once.
+
+(** T17_determinacy: threads that only read shared state (reads after initialisation) compute, under every
+    interleaving, exactly what each computes when run alone on the initial memory; memory is never changed.  Together
+    with T17_lazy_once (every caller of an idempotent lock-protected initialisation returns the value the sequential
+    run returns, see [lazy_sequential]) this is "same results as single-threaded" for the model. *)
+Theorem T17_determinacy : forall m0 ps, Forall readonly ps ->
+  forall s, reach (init_state m0 ps) s ->
+    (forall y, mem s y = m0 y) /\
+    forall i t p v, nth_error (thr s) i = Some t -> nth_error ps i = Some p -> code t = Done v ->
+      exists fuel, run_alone fuel m0 p = Some (v, m0).
+Proof. exact readonly_determinate. Qed.
+Print Assumptions T17_determinacy.
+
+(** T17_locked_pool_readonly: whatever parsers do with a locked pool (cache / orphan / clear / retrieve / add URIs), its
+    grammar registry is unchanged and it stays locked; an id handed out for a URI is never changed or reused. *)
+Theorem T17_locked_pool_readonly : forall p ops, locked p = true ->
+  locked (pool_run p ops) = true /\ registry (pool_run p ops) = registry p /\
+  (forall u i, uri_id p u = Some i -> uri_id (pool_run p ops) u = Some i) /\
+  (forall u1 u2 i, uri_id (pool_run p ops) u1 = Some i -> uri_id (pool_run p ops) u2 = Some i -> u1 = u2).
+Proof.
+  intros p ops L. destruct (pool_run_locked ops p L) as [A B]. split; [exact A|split; [exact B|split]].
+  - intros u i. apply pool_run_uri.
+  - intros u1 u2 i. apply uri_id_injective.
+Qed.
+Print Assumptions T17_locked_pool_readonly.
+
+(** ------------------------------------------------------------------------------------------------------------
+    Non-vacuity and defect witnesses (bounded exhaustive exploration of the executable semantics, by vm_compute;
+    these are EXAMPLES about 2-3 threads, not the unbounded claims above). *)
+Definition mem0 : memory := fun _ => 0.
+
+(** the hypotheses of T17_lockset are satisfiable by a non-trivial program: lazy_get guards its flag by its mutex *)
+Example lockset_hyp_satisfiable : Forall (guarded 0 5 []) [lazy_get 5 0 1 7; lazy_get 5 0 1 7].
+Proof. repeat constructor; cbn; intros; destruct (Nat.eqb v 0); cbn; intuition (try discriminate; auto). Qed.
+
+(** ... and of T17_initonly: main initialises location 3 then signals; two workers wait, then read it *)
+Example initonly_hyp_satisfiable :
+  initphase 3 (PWr 3 9 (PSignal (PRd 3 (fun r => Done r)))) /\ Forall (worker 3) [PWait (PRd 3 (fun r => Done r)); PWait (PRd 3 (fun r => Done r))].
+Proof. split; [cbn; auto|repeat constructor; cbn; auto]. Qed.
+
+(** the race definition is not vacuous: the UNSYNCHRONISED lazy initialisation (DOMDocumentImpl::isKidOK's kidOK,
+    TraverseSchema's wsFacets: findings F17-1, F17-2) IS detected as racy on its data location with 2 threads ... *)
+Example T17_unsync_lazy_init_races :
+  existsb (fun s => race_in 1 (thr s)) (explore 12 (init_state mem0 [lazy_get_unsync 0 1 7; lazy_get_unsync 0 1 7])) = true.
+Proof. vm_compute. reflexivity. Qed.
+
+(** ... and its body can run twice (a finished thread returns 2v = 14) *)
+Example T17_unsync_runs_twice :
+  existsb (fun s => finished s && existsb (Nat.eqb 14) (results s))
+          (explore 12 (init_state mem0 [lazy_get_unsync 0 1 7; lazy_get_unsync 0 1 7])) = true.
+Proof. vm_compute. reflexivity. Qed.
+
+(** F17-2: publishing the flag before the data lets a second thread finish with the unbuilt value 0 instead of 7 *)
+Example T17_flag_first_refuted :
+  existsb (fun s => finished s && existsb (Nat.eqb 0) (results s))
+          (explore 12 (init_state mem0 [lazy_get_flag_first 0 1 7; lazy_get_flag_first 0 1 7])) = true.
+Proof. vm_compute. reflexivity. Qed.
+
+(** the double-checked variant (RangeTokenMap::getRange) races on its unlocked fast-path read when the table is NOT
+    pre-built; the library avoids the slow path by building every range in Initialize (class InitBuilt) *)
+Example T17_dcl_races_when_not_prebuilt :
+  existsb (fun s => race_in 0 (thr s)) (explore 20 (init_state mem0 [dcl_get 5 0 1 7; dcl_get 5 0 1 7])) = true.
+Proof. vm_compute. reflexivity. Qed.
+
+Example T17_dcl_quiet_when_prebuilt :
+  existsb (fun s => race_in 0 (thr s) || race_in 1 (thr s))
+          (explore 20 (init_state (upd (upd mem0 0 1) 1 7) [dcl_get 5 0 1 7; dcl_get 5 0 1 7; dcl_get 5 0 1 7])) = false.
+Proof. vm_compute. reflexivity. Qed.
+
+(** the locked variant, explored exhaustively for 3 threads, agrees with T17_lazy_once: no race, every result is 7 *)
+Example T17_lazy_once_3threads_explored :
+  forallb (fun s => negb (race_in 0 (thr s) || race_in 1 (thr s)) && (negb (finished s) || forallb (Nat.eqb 7) (results s)))
+          (explore 30 (init_state mem0 [lazy_get 5 0 1 7; lazy_get 5 0 1 7; lazy_get 5 0 1 7])) = true.
+Proof. vm_compute. reflexivity. Qed.
+
+(** sequential run of the lazy getter returns v: the value T17_lazy_once gives every concurrent caller *)
+Example lazy_sequential_value : option_map fst (run_alone 20 mem0 (lazy_get 5 0 1 7)) = Some 7.
+Proof. vm_compute. reflexivity. Qed.
+
+(** the pool model does move when NOT locked (the read-only theorem is not trivially true) *)
+Example pool_unlocked_changes : registry (pool_run (mkP [1] false []) [OpCache 2]) = [2; 1].
+Proof. reflexivity. Qed.
+Example pool_locked_keeps : registry (pool_run (mkP [1] true []) [OpCache 2; OpClear; OpOrphan 1; OpAddUri 9]) = [1].
+Proof. reflexivity. Qed.
